@@ -538,9 +538,12 @@ class CancelScope(BaseCancelScope):
                 if self._pending_uncancellations:
                     assert self._parent_scope is not None
                     assert self._parent_scope._pending_uncancellations is not None
-                    self._parent_scope._pending_uncancellations += (
-                        self._pending_uncancellations
-                    )
+                    # Only the scope's own host task can be uncancelled by the parent
+                    if self._parent_scope._host_task is self._host_task:
+                        self._parent_scope._pending_uncancellations += (
+                            self._pending_uncancellations
+                        )
+
                     self._pending_uncancellations = 0
 
                 return False
